@@ -1,0 +1,29 @@
+//! Verification hooks (compiled only with `--cfg bump_scope_verif`; no effect on normal builds).
+//!
+//! `BumpPool::lock` reports every acquisition of the pool mutex while the lock is held. Each
+//! acquisition gets a global ticket (its position in the linearisation of all pool operations);
+//! the calling thread can read the ticket and the number of idle arenas it saw.
+
+use core::sync::atomic::{AtomicUsize, Ordering};
+
+static TICKET: AtomicUsize = AtomicUsize::new(0);
+
+std::thread_local! {
+    static LAST: core::cell::Cell<(usize, usize)> = const { core::cell::Cell::new((usize::MAX, 0)) };
+}
+
+/// Called by `BumpPool::lock` with the mutex held.
+pub fn pool_lock_acquired(idle: usize) {
+    let t = TICKET.fetch_add(1, Ordering::SeqCst);
+    LAST.with(|l| l.set((t, idle)));
+}
+
+/// `(ticket, idle arenas seen)` of the calling thread's most recent pool-lock acquisition.
+pub fn last_pool_lock() -> (usize, usize) {
+    LAST.with(|l| l.get())
+}
+
+/// Resets the ticket counter (between test runs).
+pub fn reset_tickets() {
+    TICKET.store(0, Ordering::SeqCst);
+}
